@@ -20,6 +20,7 @@ CORRESPONDENCE = [
     "Model.Sparse (fwriteSparse*/fwriteSparseEnd) == real static LZ4IO_fwriteSparse/LZ4IO_fwriteSparseEnd: exact fseek/fwrite call trace, returned storedSkips, final file image",
     "Model.CliOpts set_block_size / set_block_size_id == real LZ4IO_setBlockSize / LZ4IO_setBlockSizeID (stored blockSize, blockSizeId, return value)",
     "Model.CompressPipe layout (frame descriptor, decoded size of every block, end mark/checksum) == structure parsed from the real MT / ST / legacy output",
+    "Model.CompressPipe instantiated with the FrameC model (CliCompInst.cli_bytes_raw) == the real MT / ST output file, byte for byte, on inputs of at most 6000 bytes none of whose blocks compresses",
 ]
 RULE = ("end-to-end: file contents {zero-rich, text-like, random, mixed, all-zero} x sizes {0, 1, 64KB/256KB/1MB/4MB/8MB +-1, ...} x option rows "
         "(pairwise-covering over level, -B#, -BD/-BI, -BX, --content-size, --no-frame-crc, -l, -D, I/O mode, decode sparse mode, compressor build) "
@@ -28,8 +29,9 @@ RULE = ("end-to-end: file contents {zero-rich, text-like, random, mixed, all-zer
         "skipped zero word (sparse), an accepted size (setbs); distinct = distinct (content kind, size, seed, option row) / buffer-sequence hash / size")
 TRUSTED = ["hand-written models Model/Sparse.v, Model/CliOpts.v, Model/CompressPipe.v, tied by the comparisons listed as correspondence obligations",
            "modelled OS behaviour: a write after seeking beyond end-of-file fills the gap with zero bytes (POSIX); fseek/fwrite succeed (failure paths belong to C14)",
-           "library compressors enter the pipeline theorems as Section hypotheses (their contracts are properties C01/C03/C07)",
-           "write-order property of the MT write register enters C04_mt_deterministic as a Section hypothesis (it is property C13)"]
+           "C04_*_discharged: the LZ4F operations are Model/FrameC.v (tied to lz4frame.c by C03's per-call byte comparison), the write register is Model/WriteReg.v (C13); "
+           "remaining hypotheses are the block compressor contracts blk_contract / legacy_blk_contract (C01/C06/C11/C12)",
+           "the conditional theorems C04_st/mt/legacy/cli_roundtrip keep their Section hypotheses; two of those contracts are false as stated of the library (C04_update_contract_refuted, C04_end_contract_refuted) and are replaced by update_contract_af / end_contract_v"]
 ASSUMPTIONS = ["64-bit little-endian target, sizeof(size_t)=8 (generated constant)", "each buffer handed to LZ4IO_fwriteSparse is at most 1 GB (callers use <= 8 MB)",
                "Spec stream_decode is run only on inputs whose decoding cost is bounded (the extracted decoder is O(offset) per match); larger inputs are judged by both real decoders and a frame walker"]
 
@@ -370,6 +372,42 @@ def layout_check(st, case, F, data, dictb, res, det):
         fail(res, "prop_fail", "the output of lz4 is not a single well-formed frame", det); return
     if got != want:
         fail(res, "corr_fail", "layout of the real %s output differs from the model: code [%s] model [%s]" % (o["comp"], got[:300], want[:300]), det); return
+    bytes_check(st, case, F, data, res, det)
+
+def all_blocks_raw(F):
+    """True iff F is one LZ4 frame whose data blocks all carry the uncompressed flag (walked from the format, no library)"""
+    if len(F) < 11 or F[:4] != b"\x04\x22\x4d\x18":
+        return False
+    flg = F[4]
+    pos = 4 + 2 + (8 if flg & 8 else 0) + (4 if flg & 1 else 0) + 1
+    bcrc = 4 if flg & 16 else 0
+    while pos + 4 <= len(F):
+        w = struct.unpack_from("<I", F, pos)[0]
+        pos += 4
+        if w == 0:
+            return True
+        if not (w & 0x80000000):
+            return False
+        pos += (w & 0x7fffffff) + bcrc
+    return False
+
+def bytes_check(st, case, F, data, res, det):
+    """(d) byte-level tie of the compression pipelines: when no block of the real output is compressed (tiny or
+    incompressible input), the CompressPipe model instantiated with the FrameC model of lz4frame.c
+    (Proofs/CliCompInst.v, cli_bytes_raw) predicts the output file byte for byte"""
+    o = case["opts"]
+    n = len(data)
+    if o.get("legacy") or n > 6000 or not all_blocks_raw(F):
+        return
+    fsz = 0 if o["io"] == "pipe" else n
+    args = opt_args(o) + (["-D"] if o.get("dict") else [])
+    want = cli_oracle(st).ask("bytes", o["comp"], str(fsz), vlib.hx(data) if n else "-", *args)
+    res["evals"] += 1
+    res["stats"]["bytes_tie"] += 1
+    exp = "%d %s" % (len(F), hashlib.md5(F).hexdigest())
+    if not want.startswith(exp):
+        fail(res, "corr_fail", "bytes of the real %s output differ from the model (all blocks stored raw): code [%s %s] model [%s]" %
+             (o["comp"], exp, vlib.hx(F)[:200], want[:200]), det)
     res["stats"]["layout_" + ("legacy" if o.get("legacy") else "shortcut" if n < (4 * MB if o["comp"] == "mt" else 1) else "multi")] += 1
 
 ALIASES = {"level": {"--best": "-12", "--fast": "--fast=1", None: "-1", "-12": "--best", "-1": None},
